@@ -3,6 +3,7 @@ package c16
 import (
 	"crypto"
 	"fmt"
+	"net"
 	"reflect"
 	"regexp"
 	"strings"
@@ -176,6 +177,12 @@ func genMsg(t *rapid.T) msgCase {
 	c := msgCase{M: gen.Msg(t, mo)}
 	if rapid.IntRange(0, 3).Draw(t, "odd") == 0 {
 		c.Odd = rapid.IntRange(1, 40).Draw(t, "oddkind")
+		if c.Odd%5 == 4 {
+			// make sure there is an address prefix list to play with
+			apl := gen.RecOfType(t, wm.TAPL, &gen.Opts{})
+			apl.Fields = []wm.Field{{K: wm.APLs, APL: []wm.APLItem{{Family: 1, Prefix: uint8(rapid.IntRange(0, 32).Draw(t, "aplp")), Neg: rapid.Bool().Draw(t, "apln"), Afd: []byte{10, byte(rapid.IntRange(1, 255).Draw(t, "aplo"))}}}}}
+			c.M.An = append(c.M.An, apl)
+		}
 	}
 	return c
 }
@@ -309,21 +316,58 @@ func checkReadOnly(c msgCase) error {
 	// (the packers refuse or mis-encode such a record; they still have no business changing it)
 	if all := append(append(append([]dns.RR{}, lib.Answer...), lib.Ns...), lib.Extra...); c.Odd != 0 && len(all) > 0 {
 		victim := all[(c.Odd/4)%len(all)]
-		switch c.Odd % 4 {
-		case 0, 1:
-			if opt := lib.IsEdns0(); opt != nil {
-				victim = opt
+		if c.Odd%5 == 4 {
+			// addresses in the form net.ParseIP / net.IPv4 return them (16 octets for an IPv4 address):
+			// fine for A records and hints, an inconsistent prefix (16-octet address under a 4-octet
+			// mask) for APL - which the packer refuses; refusing is not a licence to rewrite it
+			for _, rr := range all {
+				switch x := rr.(type) {
+				case *dns.A:
+					if v4 := x.A.To4(); v4 != nil {
+						x.A = net.IPv4(v4[0], v4[1], v4[2], v4[3])
+					}
+				case *dns.APL:
+					for i := range x.Prefixes {
+						if v4 := x.Prefixes[i].Network.IP.To4(); v4 != nil && len(x.Prefixes[i].Network.IP) == 4 {
+							x.Prefixes[i].Network.IP = net.IPv4(v4[0], v4[1], v4[2], v4[3])
+						}
+					}
+				}
 			}
-			victim.Header().Name = ""
-			pbt.Class("odd:empty-owner")
-		case 2:
-			victim.Header().Name = strings.TrimSuffix(victim.Header().Name, ".")
-			pbt.Class("odd:unqualified-owner")
-		case 3:
-			victim.Header().Rdlength = 0xFFFF
-			pbt.Class("odd:stale-rdlength")
+			pbt.Class("odd:ipv4-in-16-octets")
+		} else {
+			switch c.Odd % 4 {
+			case 0, 1:
+				if opt := lib.IsEdns0(); opt != nil {
+					victim = opt
+				}
+				victim.Header().Name = ""
+				pbt.Class("odd:empty-owner")
+			case 2:
+				victim.Header().Name = strings.TrimSuffix(victim.Header().Name, ".")
+				pbt.Class("odd:unqualified-owner")
+			case 3:
+				victim.Header().Rdlength = 0xFFFF
+				pbt.Class("odd:stale-rdlength")
+			}
 		}
 	}
+	// the sections are windows into larger arrays (a reply assembled from slices of a cached RRset):
+	// what lies behind a section's length is not the library's to write
+	sentinel := dns.RR(&dns.NULL{Hdr: dns.RR_Header{Name: "behind.the.section.", Rrtype: dns.TypeNULL, Class: 1}})
+	var arenas [][]dns.RR
+	carve := func(sec *[]dns.RR) {
+		arr := make([]dns.RR, len(*sec)+3)
+		n := copy(arr, *sec)
+		for i := n; i < len(arr); i++ {
+			arr[i] = sentinel
+		}
+		*sec = arr[:n]
+		arenas = append(arenas, arr[n:])
+	}
+	carve(&lib.Answer)
+	carve(&lib.Ns)
+	carve(&lib.Extra)
 	before := snap(lib)
 	ops := []struct {
 		name string
@@ -355,6 +399,13 @@ func checkReadOnly(c msgCase) error {
 		op.run()
 		if after := snap(lib); after != before {
 			return pbt.Errf("%s changed its argument: %s", op.name, diffAt(after, before))
+		}
+		for _, a := range arenas {
+			for _, x := range a {
+				if x != sentinel {
+					return pbt.Errf("%s wrote into the spare capacity behind a section of the message (a record pointer landed in the caller's array)", op.name)
+				}
+			}
 		}
 	}
 	return nil
